@@ -6,13 +6,13 @@ from contracts.common import *
 from contracts.l2_core import MODES
 from contracts.l3_fxp import LOWER, meta_clauses
 
-ROUTES = ('resize', 'resize_dtype', 'ctor_from_fxp', 'ctor_like', 'like_method', 'equal', 'call', 'set_val', 'setitem')
+ROUTES = ('resize', 'resize_dtype', 'ctor_from_fxp', 'ctor_like', 'like_method', 'equal', 'call', 'set_val', 'setitem', 'fxp_like')
 
 
 def conv_formats(tier):
     if tier == 'quick':
         return [(True, 8, 2), (False, 8, 3), (True, 3, 0), (False, 2, 2), (True, 16, 17), (True, 12, -2), (False, 31, 10), (True, 52, 20), (True, 1, 0),
-                (False, 8, 2), (False, 4, 0), (True, 7, 3)]
+                (False, 8, 2), (False, 4, 0), (True, 7, 3), (True, 12, 2)]
     out = []
     for s in (True, False):
         for n, fr in ((1, (0, 9)), (3, (-8, 1)), (6, (0, 3, 14)), (8, (-1, 4, 8)), (16, (0, 17)), (31, (10, -8)), (52, (0, 26, 60))):
@@ -35,7 +35,7 @@ class Convert(Contract):
              'flag_overflow': ['C04', 'C05'], 'flag_underflow': ['C04', 'C05'], 'in_range': ['C02'], 'separate_state': ['C20'],
              'no_exception': ['C10'], 'meta_n_int': ['C02'], 'meta_limits': ['C02'], 'meta_status_keys': ['C02', 'C04'],
              'others_unchanged': ['C10'], 'governing_config': ['C10'],
-             'readback': ['C16', 'C10', 'C01'], 'vdtype_consistent': ['C16', 'C02'], 'flag_inaccuracy': ['C04', 'C05']}
+             'readback': ['C16', 'C10', 'C01', 'C08', 'C09'], 'vdtype_consistent': ['C16', 'C02', 'C08', 'C09'], 'store_dtype': ['C02', 'C10', 'C01'], 'alias_unchanged': ['C10', 'C20'], 'flag_inaccuracy': ['C04', 'C05']}
 
     def configs(self, tier):
         fm = conv_formats(tier)
@@ -50,7 +50,8 @@ class Convert(Contract):
                     for shape in shapes:
                         k += 1
                         if tier == 'quick':
-                            if (k % 3) and route not in ('equal', 'like_method') and not (src[0] != dst[0] and src[2] == dst[2]):
+                            if (k % 3) and route not in ('equal', 'like_method') and not (src[0] != dst[0] and src[2] == dst[2]) \
+                                    and not (route == 'setitem' and src[2] == dst[2]):
                                 continue
                             modes = [MODES[k % len(MODES)]]
                         else:
@@ -81,10 +82,14 @@ class Convert(Contract):
                        status={'inaccuracy': inp['isrc'], 'overflow': inp['osrc'], 'underflow': inp['usrc']}, vdtype=float if f > 0 else int)
         bsrc = dict(src.__dict__); v0 = list(elems(src.val)); st0 = dict(src.status); c0 = dict(src.config.__dict__)
         dst = None
-        if route in ('ctor_like', 'like_method', 'equal', 'call', 'set_val'):
+        if route in ('ctor_like', 'like_method', 'equal', 'call', 'set_val', 'fxp_like'):
             dst = make_fxp(P, ds, dw, df, codes=inp['old'][:n], shape=shape, cfg=gov, vdtype=float, status=inp['st_dst'])
         elif route == 'setitem':
             dst = make_fxp(P, ds, dw, df, codes=inp['old'], shape=(3,), cfg=gov, vdtype=float, status=inp['st_dst'])
+        # a shallow copy shares the code buffer: converting the original must re-bind, never overwrite, that buffer
+        target = src if in_place else (dst if route in ('equal', 'call', 'set_val') else None)
+        alias = target.copy() if target is not None else None
+        alias0 = list(elems(alias.val)) if alias is not None else None
         if route == 'resize':
             src.resize(ds, dw, df); z = src
         elif route == 'resize_dtype':
@@ -103,7 +108,11 @@ class Convert(Contract):
             z = dst.set_val(src)
         elif route == 'setitem':
             dst[1] = src; z = dst
+        elif route == 'fxp_like':
+            z = P.functions.fxp_like(dst, src)
         o = obs_fxp(z)
+        o['alias_unchanged'] = True if alias is None else same_elems(elems(alias.val), alias0)
+        o['val_dtype_name'] = 'object' if z.val.dtype == object else str(z.val.dtype)
         o['getval'] = z.get_val()
         o['vdtype_is_int'] = z.vdtype is int
         if not in_place:
@@ -112,7 +121,7 @@ class Convert(Contract):
         else:
             o['source_unchanged'] = True
         sep = True
-        if route in ('ctor_from_fxp', 'ctor_like', 'like_method'):
+        if route in ('ctor_from_fxp', 'ctor_like', 'like_method', 'fxp_like'):
             objs = [src] + ([dst] if dst is not None else [])
             for q in objs:
                 sep = sep and z is not q and z.config is not q.config and z.status is not q.status and not shares_buffer(z.val, q.val) \
@@ -128,7 +137,9 @@ class Convert(Contract):
         lo, hi = range_of(ds, dw)
         out = {'format': And(obs['signed'] == ds, obs['n_word'] == dw, obs['n_frac'] == df, obs['dtype'] == fmt_str(ds, dw, df)),
                'source_unchanged': obs['source_unchanged'], 'separate_state': obs['separate'],
-               'governing_config': And(obs['rounding'] == cfg['rule'], obs['overflow'] == cfg['mode'])}
+               'governing_config': And(obs['rounding'] == cfg['rule'], obs['overflow'] == cfg['mode']),
+               'alias_unchanged': obs['alias_unchanged'],
+               'store_dtype': obs['val_dtype_name'] == ('object' if dw >= 64 else ('int64' if ds else 'uint64'))}
         mc = meta_clauses(dict(signed=ds, n_word=dw, n_frac=df, rule=cfg['rule'], mode=cfg['mode']), obs)
         for k in ('meta_n_int', 'meta_limits', 'meta_status_keys'):
             out[k] = mc[k]
@@ -162,8 +173,8 @@ class Convert(Contract):
         if route in ('resize', 'resize_dtype'):
             base = {'overflow': B(inp['osrc']), 'underflow': B(inp['usrc']), 'inaccuracy': B(inp['isrc'])}     # in place: sticky
             prop = False
-        elif route in ('equal', 'call', 'set_val', 'setitem'):
-            base = {k: B(d0[k]) for k in ('overflow', 'underflow', 'inaccuracy')}                               # in place on dst
+        elif route in ('equal', 'call', 'set_val', 'setitem', 'fxp_like'):
+            base = {k: B(d0[k]) for k in ('overflow', 'underflow', 'inaccuracy')}                               # in place on dst (fxp_like: on a deep copy of it)
             prop = B(inp['isrc']) if route != 'equal' else False
         elif route in ('ctor_from_fxp', 'ctor_like'):
             base = {'overflow': False, 'underflow': False, 'inaccuracy': False}                                  # a fresh status record
